@@ -63,7 +63,9 @@ namespace BitSerializer::MsgPack::Detail
 			return mBinaryStreamReader.GetPosition();
 		}
 		void SetPosition(size_t pos) override {
-			mBinaryStreamReader.SetPosition(pos);
+			if (!mBinaryStreamReader.SetPosition(pos)) {
+				throw SerializationException(SerializationErrorCode::InputOutputError, "Unable to set position in the input stream");
+			}
 		}
 		[[nodiscard]] bool IsEnd() const noexcept override {
 			return mBinaryStreamReader.IsEnd();
